@@ -27,6 +27,9 @@ CHECKS = {
  "C08": ("Introspection-built callable list x Hypothesis-generated networks and argument picks; deep before/after snapshot oracle; plus an enumerated sweep of every callable on fixed networks",
          "Exploration over programs x inputs: ~200 read-only callables found by introspection (public functions taking a network, all stats through the views in every output form, public view methods, non-in-place class methods) are called with synthesised arguments on generated networks; the deep snapshot (order, members, memberships, container types, deep-copied attributes, frozen flag, next automatic ID) must be identical afterwards whether the call returned or raised. Containers handed out by accessors are scribbled on to expose leaked internals. Every callable is also swept on fixed networks, and per-callable returned/raised counts and never-returning callables are reported.",
          "New public callables are picked up automatically but only exercised if their required parameters are in the name-keyed argument registry (uncovered ones are listed). Aliasing between a returned network and the input is not probed (subhypergraph documents itself as a view).", "DESIGN.md#C08"),
+ "C09": ("Metamorphic testing: Hypothesis-generated hypergraph + node/edge-ID bijections + insertion-order shuffles; f(relabelled) must equal f(original) pushed through the bijections",
+         "Exploration with a metamorphic oracle over ~60 measures (stats, clustering coefficients, components, path lengths, densities, exact assortativities, simpliciality, maximal/duplicates, Katz centrality, every matrix through its index maps); a measure raising on one labelling only is a violation. Needs no reference implementation, so it reaches IDs that are permuted, gapped or strings, which the suite's fixtures never use.",
+         "Float comparison rtol 1e-9; randomised estimators and measures documented to need 0..n-1 labels (line_vector_centrality) are outside the statement.", "DESIGN.md#C09"),
  "C05": ("Model-based testing: Hypothesis-generated histories applied step by step to xgi and to reference models transcribed from the docstrings (three classes), metamorphic relations for the degree-preserving moves",
          "Exploration by refinement checking against an executable specification: every op of a generated history is applied to the implementation and to the model (parametric in fresh IDs, prefix semantics for bulk calls) and the observable snapshots are compared after every step, including after rejected calls and their exception types.",
          "The models are my transcription of the documentation; inputs the documentation leaves contradictory are excluded by construction and counted (see assumptions in the evidence).", "DESIGN.md#C05"),
